@@ -33,7 +33,7 @@ SAFE_SHARED = {"group", "ungroup", "sort", "reverse", "permute_setter", "permute
 # heading-less block into its new predecessor: the reference model follows that, this text-level
 # oracle does not, so it stands down)
 KEEPS_NUMBERING = {"resequence", "sort", "reverse", "permute_popins", "tcam",
-                   "shading", "shadow_of", "set_name", "set_io", "set_indent", "set_note"}
+                   "shading", "shadow_of", "set_io", "set_note"}
 
 OWNER_OF_OP = {
     "set_platform": "C02", "flip3": "C02", "conv_obj": "C02",
@@ -1065,6 +1065,28 @@ class AclMachine(Machine):
                     self._fail("C17", "C17.skip-respected",
                                f"delete_shadow(skip={skip}) removed ACE #{i} {r.den()} although "
                                f"every covering entry above it involves a skipped address kind")
+        # C17 only: the reference model of the operation predicts the removal of a *plain* entry
+        # (no address group, no TCP flags, port sets not empty) that a plain earlier entry of the
+        # same action covers - the group-free core of the operation's specification
+        if self.prop == "C17" and not skip:
+            def plain(x):
+                return x.kind == "ace" and not x.src.group and not x.dst.group and not x.flags \
+                    and all(p is None or p.intervals() for p in (x.sport, x.dport))
+            gone = set(removed)
+            for i, r in enumerate(pre):
+                if i in gone or not plain(r):
+                    continue
+                for t in pre[:i]:
+                    if (t.kind == "ace" and (t.sport is not None and r.sport is None
+                                             or t.dport is not None and r.dport is None)):
+                        # "every port" written as an expression above "no port restriction":
+                        # not predicted (the specification speaks about port sets of both)
+                        continue
+                    if plain(t) and t.action == r.action and rule_covers(t, r) is True:
+                        self._fail("C17", "C17.shadow-predicted",
+                                   f"delete_shadow() left ACE #{i} {r.den()} although the plain "
+                                   f"earlier entry {t.den()} covers it\n{self._model_text(pre)}")
+            self.probes["shadow_prediction_checked"] += 1
         # independent cross-check: first-match decision of witness packets unchanged
         if removed:
             survivors = [r for i, r in enumerate(pre) if i not in set(removed)]
